@@ -6,6 +6,7 @@ import (
 	"reflect"
 	"runtime/debug"
 	"strings"
+	"sync"
 	"sync/atomic"
 	"time"
 
@@ -72,6 +73,7 @@ type Context struct {
 	behaviorStack *BehaviorStack                     // 行为栈
 	mailbox       vivid.Mailbox                      // 邮箱
 	children      map[vivid.ActorPath]vivid.ActorRef // 懒加载的子 Actor 引用
+	childrenLock  sync.Mutex                         // 保护 children：ActorSystem.ActorOf 在调用方协程上操作根 Actor 的 children，与根 Actor 自身的消息处理协程并发
 	envelop       vivid.Envelop                      // 当前 ActorContext 的消息
 	state         int32                              // 状态
 	zombie        bool                               // 是否为僵尸状态
@@ -175,10 +177,21 @@ func (c *Context) ActorOf(actor vivid.Actor, options ...vivid.ActorOption) (vivi
 		return nil, vivid.ErrorActorAlreadyExists.WithMessage(childCtx.Ref().GetPath())
 	}
 
+	// 登记子 Actor 与"确认自身已无子 Actor 并标记为 killed"（checkAndMarkKilled）在同一把锁内互斥，
+	// 并在锁内重新读取状态：若父级已经终止则撤销登记并返回错误；若正在终止则由下方补发终止请求。
+	// 否则与 Stop 并发的 ActorSystem.ActorOf 可能在根 Actor 认定自己已无子 Actor 之后才登记，留下无人终止的孤儿。
+	c.childrenLock.Lock()
+	status = atomic.LoadInt32(&c.state)
+	if status == killed {
+		c.childrenLock.Unlock()
+		c.system.removeActorContext(childCtx)
+		return nil, vivid.ErrorActorDeaded
+	}
 	if c.children == nil {
 		c.children = make(map[vivid.ActorPath]vivid.ActorRef)
 	}
 	c.children[childCtx.Ref().GetPath()] = childCtx.Ref()
+	c.childrenLock.Unlock()
 
 	c.tell(true, childCtx.Ref(), new(vivid.OnLaunch))
 	c.Logger().Debug("actor spawned", log.String("path", childCtx.Ref().GetPath()))
@@ -557,7 +570,7 @@ func (c *Context) doKill(message *vivid.OnKill, behavior vivid.Behavior) {
 	c.system.removeFuturesByAgentPath(c.ref.GetPath(), vivid.ErrorActorDeaded)
 
 	// 等待所有子 Actor 结束，假设是重启，子 Actor 不应该跟随重启，应该由父节点决定是否重启
-	for _, child := range c.children {
+	for _, child := range c.Children() {
 		c.Logger().Debug("notify child kill", log.String("path", child.GetPath()))
 		c.Kill(child, message.Poison, message.Reason)
 	}
@@ -650,6 +663,8 @@ func (c *Context) Kill(ref vivid.ActorRef, poison bool, reason ...string) {
 }
 
 func (c *Context) Children() vivid.ActorRefs {
+	c.childrenLock.Lock()
+	defer c.childrenLock.Unlock()
 	children := make(vivid.ActorRefs, 0, len(c.children))
 	for _, child := range c.children {
 		children = append(children, child)
